@@ -42,11 +42,16 @@ def run_case(cfg, W, nsteps, seed):
     rng = random.Random(seed)
     d = tempfile.mkdtemp(prefix="ktv10_")
     try:
-        hps = hpm.HyperParameters(); hps.Int("x", 0, 10 ** 9)
-        o = hyperband.HyperbandOracle(objective=kt.Objective("score", "max" if cfg["mx"] else "min"), max_epochs=cfg["max_epochs"], factor=cfg["factor"],
-                                      hyperband_iterations=cfg["iters"], seed=rng.randint(1, 10 ** 6), hyperparameters=hps,
-                                      max_retries_per_trial=cfg["max_retries"], max_consecutive_failed_trials=cfg["max_consec"])
-        o._set_project_dir(d, "p"); o._display.verbose = 0
+        oseed = rng.randint(1, 10 ** 6)
+
+        def mk():
+            hps = hpm.HyperParameters(); hps.Int("x", 0, 10 ** 9)
+            oo = hyperband.HyperbandOracle(objective=kt.Objective("score", "max" if cfg["mx"] else "min"), max_epochs=cfg["max_epochs"], factor=cfg["factor"],
+                                           hyperband_iterations=cfg["iters"], seed=oseed, hyperparameters=hps,
+                                           max_retries_per_trial=cfg["max_retries"], max_consecutive_failed_trials=cfg["max_consec"])
+            oo._set_project_dir(d, "p"); oo._display.verbose = 0
+            return oo
+        o = mk()
         nb = o._get_num_brackets()
         sizes = [[o._get_size(b, r) for r in range(b + 1)] for b in range(nb)]
         held = {}; ops = []; obs = []; book = {}; viol = None; issued = {}
@@ -99,6 +104,17 @@ def run_case(cfg, W, nsteps, seed):
                                 return "same-values", "%s: promoted trial %s has values %r, its parent %s has %r" % (when, e["id"], va, q, vb)
             return None
         for _ in range(nsteps):
+            if rng.random() < 0.03:
+                # the process restarts: a fresh oracle reloads the project; whoever held a trial is gone
+                import json as _json
+                before = (o._current_iteration, o._current_bracket, _json.loads(_json.dumps(o._brackets)))
+                o.save(); lc._release(o); o = mk(); o.reload(); held = {}
+                after = (o._current_iteration, o._current_bracket, _json.loads(_json.dumps(o._brackets)))
+                if viol is None and before != after:
+                    k = [i for i in range(3) if before[i] != after[i]][0]
+                    viol = ("schedule-state-after-reload", "after save+reload %s is %r, was %r: the sweep continues from another place of the schedule" % (
+                        ["the iteration counter", "the current bracket", "the bracket book"][k], after[k], before[k]))
+                ops.append(("reload",)); obs.append((("none",), snap())); continue
             w = rng.randrange(W); tn = "w%d" % w
             if tn in held and rng.random() < (0.8 if w not in cfg.get("slow", ()) else 0.07):
                 t = held.pop(tn); r = rng.random()
@@ -150,6 +166,7 @@ def emit_case(cfg, ops, obs):
 
     def op(o):
         if o[0] == "create": return "Create %s" % emit.nat(o[1])
+        if o[0] == "reload": return "Reload"
         oc = o[2]
         if oc[0] == "C": return "End %s ECompleted (hrep (Some %s))" % (emit.nat(o[1]), emit.z(oc[1]))
         if oc[0] == "N": return "End %s ECompleted (hrep None)" % emit.nat(o[1])
